@@ -107,6 +107,15 @@ Lemma c09_go_acronym_inner_refuted :
   c09_witness Go [] w_acrs w_prog_acr (go_file_decls uc_exec (w_go w_acrs) (c09_reconciled w_prog_acr)) "C09-go-acronym-inner" = true.
 Proof. vm_compute. reflexivity. Qed.
 
+(* struct UserId; struct Foo<TId> { x: TId, v: Vec<UserId> } under uppercase_acronyms = [ID] (given in upper case:
+   its PascalCase form Id is what is searched): the parameter is declared `Foo[TId any]` and used as `X TID` *)
+Definition w_prog_gen : parsed :=
+  w_parsed [ w_struct "UserId" "UserId" [] [w_field "a" (RPrim PU32)];
+             w_struct "Foo" "Foo" ["TId"] [w_field "x" (S_ "TId"); w_field "v" (RVec (S_ "UserId"))] ] [] [] [].
+Lemma c09_go_acronym_generic_refuted :
+  c09_witness Go [] [lit "ID"] w_prog_gen (go_file_decls uc_exec (w_go [lit "ID"]) (c09_reconciled w_prog_gen)) "C09-go-acronym-generic" = true.
+Proof. vm_compute. reflexivity. Qed.
+
 (* ---------------------------------------------------------------- non-vacuity *)
 (* a program with mutual references, a generic struct, a tagged enum with a struct variant, an alias,
    one renamed struct, under a prefix: inside the domain, in no class, and the model generates it *)
@@ -146,6 +155,30 @@ Proof. vm_compute. reflexivity. Qed.
 Example C09_Go_nonvacuous_ex : c09_nonvacuous Go [] w_clean (go_file_decls uc_exec (w_go []) (c09_reconciled w_clean)) = true.
 Proof. vm_compute. reflexivity. Qed.
 
+(* Go WITH acronyms (ID given in upper case, api in lower case): the conversion really rewrites definitions and
+   uses - UserID, APIEvent, APIEventV1Inner - and does so consistently:
+   struct UserId; struct Holder<T> { u: Vec<UserId>, t: T, e: ApiEvent };
+   enum ApiEvent { V1 { a: UserId }, V2(Option<UserId>) } *)
+Definition w_acr_clean : parsed :=
+  w_parsed
+    [ w_struct "UserId" "UserId" [] [w_field "x" (RPrim PU32)];
+      w_struct "Holder" "Holder" ["T"] [w_field "u" (RVec (S_ "UserId")); w_field "t" (S_ "T"); w_field "e" (S_ "ApiEvent")] ]
+    [ EAlgebraic (lit "type") (lit "content")
+        (w_esh "ApiEvent" "ApiEvent" [] [VAnon [w_field "a" (S_ "UserId")] (w_vsh "V1"); VTuple (ROption (S_ "UserId")) (w_vsh "V2")]) ]
+    [] [].
+Definition w_acr_list : list str := [lit "ID"; lit "api"].
+Definition c09_nonvacuous_go (acrs : list str) (pd : parsed) (out : outcome file_decls) (defs : list str) : bool :=
+  dom_C09 Go [] pd && match known_C09 Go [] acrs pd with None => true | Some _ => false end &&
+  match out with
+  | Ok fd => (4 <=? List.length (c9_refs (c09_observe Go fd)))%nat && good_C09 Go [] pd (c09_observe Go fd) &&
+             forallb (fun d => mem_str d (c9_defs (c09_observe Go fd))) defs
+  | _ => false
+  end.
+Example C09_Go_acronyms_nonvacuous_ex :
+  c09_nonvacuous_go w_acr_list w_acr_clean (go_file_decls uc_exec (w_go w_acr_list) (c09_reconciled w_acr_clean))
+                    [lit "UserID"; lit "APIEvent"; lit "APIEventV1Inner"; lit "Holder"] = true.
+Proof. vm_compute. reflexivity. Qed.
+
 (* ---------------------------------------------------------------- nothing renamed => no class *)
 Lemma c09_first_all_none {A} (l : list (option A)) : (forall x, In x l -> x = None) -> c09_first l = None.
 Proof.
@@ -159,13 +192,13 @@ Lemma c09_no_rename_known (L : lang) (pfx : str) (pd : parsed) :
   known_C09 L pfx [] pd = None.
 Proof.
   intros Hren Hinl. unfold known_C09. apply c09_first_all_none. intros x Hx. unfold c09_classes in Hx.
-  apply in_app_iff in Hx as [Hx|Hx]; [|apply in_app_iff in Hx as [Hx|Hx]; [|apply in_app_iff in Hx as [Hx|Hx]]].
+  apply in_app_iff in Hx as [Hx|Hx]; [|apply in_app_iff in Hx as [Hx|Hx]; [|apply in_app_iff in Hx as [Hx|Hx]; [|apply in_app_iff in Hx as [Hx|Hx]]]].
   - apply in_flat_map in Hx as (tp & _ & Hx). unfold c09_tpos_classes in Hx. apply in_flat_map in Hx as (fi & _ & Hx).
     destruct (c09_lookup pd (snd fi)) as [e|] eqn:Hlk; [|destruct Hx].
     destruct (c09_lookup_in pd _ e Hlk) as (He & _ & _).
     destruct Hx as [<-|[<-|[]]].
     + unfold c09_type_site_class. rewrite (Hren e He). reflexivity.
-    + unfold c09_acronym_class, c09_acr_changes. destruct L, (c9t_pos tp); reflexivity.
+    + unfold c09_acronym_class, c09_acr_changes, c09_acr_conv. cbn [fold_left]. rewrite str_eqb_refl. destruct L, (c9t_pos tp); reflexivity.
   - apply in_flat_map in Hx as (e & He & Hx). destruct (c9e_kind e) eqn:K; destruct Hx as [<-|[]];
       unfold c09_parent_site_class, c09_inner_site_class; rewrite ?K; try rewrite (Hren e He); try reflexivity;
       destruct (c09_parent_which L _); reflexivity.
@@ -174,4 +207,8 @@ Proof.
     apply in_flat_map in Hx as (e & _ & Hx). cbv zeta in Hx. apply in_flat_map in Hx as (v & _ & Hx).
     destruct v as [?|? ?|fs vsh]; [destruct Hx|destruct Hx|]. destruct Hx as [<-|[]].
     unfold c09_inner_acronym_class, c09_acr_conv. destruct L; try reflexivity. cbn [fold_left]. rewrite str_eqb_refl. reflexivity.
+  - (* no acronyms: no generic parameter is rewritten *)
+    apply in_flat_map in Hx as (tp & _ & Hx). apply in_map_iff in Hx as (fi & <- & _).
+    unfold c09_generic_acronym_class, c09_acr_changes, c09_acr_conv. cbn [fold_left]. rewrite str_eqb_refl. cbn [negb]. rewrite andb_false_r.
+    destruct L; reflexivity.
 Qed.
